@@ -93,6 +93,85 @@ def dotted(node: ast.AST | None) -> str | None:
     return None
 
 
+_SCOPE_NODES = (ast.FunctionDef, ast.AsyncFunctionDef, ast.Lambda, ast.ClassDef)
+
+
+def inline_method_aliases(tree: ast.AST) -> int:
+    """Normalisation: the repository's `resolve = self.resolver.resolve` speed idiom (a local bound once to an attribute
+    chain rooted at self/cls) is undone - every use of the local in the function's own scope becomes the attribute chain
+    again, so rules see `self._should_skip(...)` whatever the temporary is called.  The assignment itself stays."""
+    import copy
+
+    count = 0
+    for fn in ast.walk(tree):
+        if not isinstance(fn, (ast.FunctionDef, ast.AsyncFunctionDef)):
+            continue
+        own: list[ast.AST] = []
+        stack = list(ast.iter_child_nodes(fn))
+        while stack:
+            n = stack.pop()
+            own.append(n)
+            if not isinstance(n, _SCOPE_NODES):
+                stack.extend(ast.iter_child_nodes(n))
+        params = {a.arg for a in fn.args.posonlyargs + fn.args.args + fn.args.kwonlyargs}
+        stores: dict[str, list[ast.AST]] = {}
+        for n in own:
+            if isinstance(n, ast.Name) and isinstance(n.ctx, (ast.Store, ast.Del)):
+                stores.setdefault(n.id, []).append(n)
+            elif isinstance(n, ast.ExceptHandler) and n.name:
+                stores.setdefault(n.name, []).append(n)
+            elif isinstance(n, (ast.Global, ast.Nonlocal)):
+                for x in n.names:
+                    stores.setdefault(x, []).extend([n, n])
+        aliases: dict[str, ast.expr] = {}
+        for n in own:
+            if isinstance(n, ast.Assign) and len(n.targets) == 1 and isinstance(n.targets[0], ast.Name):
+                name = n.targets[0].id
+                v = n.value
+                root = v
+                depth = 0
+                while isinstance(root, ast.Attribute):
+                    root = root.value
+                    depth += 1
+                if depth and isinstance(root, ast.Name) and root.id in ("self", "cls") and name not in params and len(stores.get(name, [])) == 1:
+                    aliases[name] = v
+        if not aliases:
+            continue
+        # a nested scope that mentions the name keeps the closure variable: do not touch such aliases
+        for n in own:
+            if isinstance(n, _SCOPE_NODES):
+                for x in ast.walk(n):
+                    if isinstance(x, ast.Name) and x.id in aliases:
+                        aliases.pop(x.id, None)
+        if not aliases:
+            continue
+
+        class _T(ast.NodeTransformer):
+            def visit_FunctionDef(self, node):  # type: ignore[no-untyped-def]
+                return node if node is not fn else self.generic_visit(node)
+
+            visit_AsyncFunctionDef = visit_FunctionDef
+
+            def visit_Lambda(self, node):  # type: ignore[no-untyped-def]
+                return node
+
+            def visit_ClassDef(self, node):  # type: ignore[no-untyped-def]
+                return node
+
+            def visit_Name(self, node: ast.Name) -> ast.AST:
+                nonlocal count
+                if isinstance(node.ctx, ast.Load) and node.id in aliases:
+                    new = copy.deepcopy(aliases[node.id])
+                    for x in ast.walk(new):
+                        ast.copy_location(x, node)
+                    count += 1
+                    return new
+                return node
+
+        _T().visit(fn)
+    return count
+
+
 def set_parents(tree: ast.AST) -> None:
     for node in ast.walk(tree):
         for child in ast.iter_child_nodes(node):
@@ -148,6 +227,7 @@ class Project:
             except SyntaxError as exc:
                 self.parse_errors.append(f"{rel}: {exc}")
                 continue
+            inline_method_aliases(tree)
             set_parents(tree)
             modname = PKG + "." + rel[:-3].replace(os.sep, ".")
             is_pkg = False
